@@ -424,6 +424,11 @@ class IrGenerator:
                         # the following code is never executed
                         # return empty list, there are no open blocks after await false
                         # because execution stops at that point
+
+                        # add a Nop to mark the state as used: when the first
+                        # state stays empty a following while loop (at_start() is
+                        # still true) would be placed in it and run
+                        new_state.code().append(ir.Nop())
                         return []
 
                     assert (
